@@ -214,11 +214,24 @@ def rule_stop(ctx):
                 op = cond["op"] if gap_left else {"<": ">", "<=": ">=", ">": "<", ">=": "<="}[cond["op"]]
                 other = rr if gap_left else l
                 # the tolerance local must be rescaled by the squared norm of y
-                scaled = False
+                scaled = None
                 for z in walk(fn["body"]):
-                    if z.get("k") == "LetStmt" and z["pat"].get("k") == "Bind" and z["pat"].get("local") == other.get("local") and z.get("init") is not None:
-                        scaled = any(w.get("k") == "Binary" and w["op"] == "*" for w in walk(z["init"])) and any(w.get("k") == "Path" and w.get("name") == "y" for w in walk(z["init"]))
-                if op not in ("<", "<="):
+                    if z.get("k") != "LetStmt" or z.get("init") is None:
+                        continue
+                    init = None
+                    if z["pat"].get("k") == "Bind" and z["pat"].get("local") == other.get("local"):
+                        init = z["init"]
+                    elif z["pat"].get("k") == "Tuple" and strip(z["init"]).get("k") == "Tup" and len(z["pat"]["pats"]) == len(strip(z["init"])["es"]):
+                        # `let (d_w_tol, gap_tol) = (tol, tol * ..);`
+                        for q, e_ in zip(z["pat"]["pats"], strip(z["init"])["es"]):
+                            if q.get("k") == "Bind" and q.get("local") == other.get("local"):
+                                init = e_
+                    if init is not None:
+                        ys = set(b["local"] for p_ in fn["params"][1:2] for b in pat_bindings(p_))
+                        scaled = any(w.get("k") == "Binary" and w["op"] == "*" for w in walk(init)) and any(w.get("k") == "Path" and (w.get("name") == "y" or w.get("local") in ys) for w in walk(init))
+                if scaled is None:
+                    res.undecided("%s : tolerance-source" % key, "where the tolerance `%s` comes from was not found (fail closed)" % r.e(other)[:20], fn_loc(fn, y["ln"]))
+                elif op not in ("<", "<="):
                     res.violate("%s : stop-inverted" % key, "the descent stops when the duality gap is ABOVE the tolerance (`%s`)" % r.e(cond)[:40], fn_loc(fn, y["ln"]))
                 elif not scaled:
                     res.violate("%s : tolerance-not-scaled" % key, "the gap is compared with a tolerance that is not scaled by ||y||^2 (documented stopping rule: gap < tol*||y||^2)", fn_loc(fn, y["ln"]))
@@ -309,9 +322,34 @@ def rule_ols(ctx):
     return res.finish(4)
 
 
+def rule_filtered(ctx):
+    from . import rowindex
+    res = RuleResult("R-C11-filtered", "no filtered list of column positions is zipped with an unfiltered walk over the columns (the k-th surviving position is not column k)")
+    F = ctx.facts()
+    n = 0
+    for fn in F.all_fns():
+        if fn["d"]["krate"] != "linfa_elasticnet" or "tests" in fn["d"]["path"] or fn.get("exp"):
+            continue
+        if not any(y.get("k") == "Match" and y.get("src") == "ForLoopDesugar" for y in walk(fn["body"])):
+            continue
+        n += 1
+        key = fn_key(fn)
+        res.instance(key)
+        bad = rowindex.filtered_index_zip(fn)
+        if bad:
+            res.violate("%s : filtered-positions-zipped-with-walk:%s" % (key, bad[0][1]), "a filtered list of positions is zipped with an unfiltered walk over `%s`: after the first filtered-out position every pair is (position j, element k < j)" % bad[0][1], fn_loc(fn, bad[0][0].get("ln")))
+        else:
+            res.ok()
+    if n < 2:
+        res.missing_anchor("loops in linfa-elasticnet (found %d functions)" % n)
+    return res.finish(2)
+
+
 def rules(tier):
-    from . import carry, precision, layout, c04
-    return [rule_intercept, rule_zero_terms, rule_stop, rule_ols,
+    from . import carry, precision, layout, c04, zeroskip
+    return [zeroskip.make_rule("R-C11-zeroskip", lambda f: f["d"]["krate"] == "linfa_elasticnet" and f["d"]["name"] in ("coordinate_descent", "block_coordinate_descent"), ("r",), 4, "the residual in the coordinate descents"),
+            rule_filtered, carry.make_default_rule("R-C11-default", {"linfa_elasticnet", "linfa_linear"}, 1),
+            rule_intercept, rule_zero_terms, rule_stop, rule_ols,
             carry.make_clone_rule("R-C11-clone", {"linfa_elasticnet", "linfa_linear"}, 6), carry.make_setter_rule("R-C11-override", {"linfa_elasticnet", "linfa_linear"}, 4),
             carry.make_accessor_rule("R-C11-accessor", {"linfa_elasticnet", "linfa_linear"}, 6), carry.make_ctor_rule("R-C11-ctor", {"linfa_elasticnet", "linfa_linear"}, 1),
             c04.make_carry_rule("R-C11-carry", {"ElasticNetParamsBase"}, 4),
